@@ -414,9 +414,27 @@ def first_leaf(d, last=False):
         d = d[-1][-1 if last else 0]
     return d
 
+def _tinfo(d):
+    return (d[0],) + ((tuple(d[1]),) if d[0] in (3, 4) else ()) + ((d[2],) if d[0] == 4 else ())
+
+def is_normal(d):
+    """the normal form of Spec/FlatOps.v `normal` (hypothesis of flat_injective), on a structure dump"""
+    if d[0] < 2: return True
+    ps = d[-1]
+    for p in ps:
+        if p[0] == 2 or not is_normal(p): return False
+        if (len(p[1]) if p[0] == 0 else 1 if p[0] == 1 else sum(l[0] for l in leaves(p))) == 0: return False
+    for a, b in zip(ps, ps[1:]):
+        if _tinfo(a) == _tinfo(b) and a[0] != 1: return False     # neighbours of the same type information (Symbols excepted)
+    return True
+
 def check_node(ent):
     """the property for one API call: message or None"""
     op, params, ins, out, mutated = ent[:5]
+    if op < 30 and out is not None and not is_normal(out[0]):
+        return 'the value built is not in normal form (empty part, nested Text, or unmerged neighbours): %r' % (out[0],)
+    if op == 30 and out is not None and not all(is_normal(p[0]) for p in out):
+        return 'a piece of split is not in normal form'
     if mutated:
         return 'an operand was modified by operation %d' % op
     if any(x[0] == [6] for x in ins) or (op in (21, 30) and params[0][0] == 3):
@@ -543,7 +561,7 @@ def check_node(ent):
         return '==: %r == %r is %r' % (x, F[1], bool(out))
     return None
 
-KNOWN_CLASSES = ('F10:', 'F17:', 'F17e:', 'F17s:', 'F23:')
+KNOWN_CLASSES = ('F17:', 'F17e:', 'F17s:', 'F23:')   # 'F10:' messages (external lost) are ordinary violations since fix 8ee055e
 
 def oracle(fn, arg, out):
     """the verdict was computed next to the implementation call (in the worker process, so that it
@@ -565,7 +583,7 @@ def judge(trace):
 
 def _sig(cls):
     return lambda kind, fn, arg, detail: kind == 'oracle' and isinstance(detail, str) and detail.startswith(cls + ':')
-KNOWN_SIGNATURES = {'F10': _sig('F10'), 'F17': _sig('F17'), 'F17e': _sig('F17e'), 'F17s': _sig('F17s'), 'F23': _sig('F23')}
+KNOWN_SIGNATURES = {'F17': _sig('F17'), 'F17e': _sig('F17e'), 'F17s': _sig('F17s'), 'F23': _sig('F23')}
 
 def replay_known(finding):
     p = finding.get('pinned')
@@ -903,6 +921,6 @@ TRUSTED_BASE = ['modelled (not verified) code: pybtex/richtext.py (all classes a
                 'str.upper/lower/isalpha are modelled on ASCII only, \\s as the 29 Python whitespace code points; '
                 'the regexes whitespace_re and delimiter_re are modelled by hand-written splitters (compared with the live objects through String.split on every run)']
 ASSUMPTIONS = ['characters whose case mapping changes length, and non-ASCII letters, are outside the compared domain (generators use ASCII, whitespace code points and a few non-letter symbols)']
-PARTIAL = ['all rendering theorems are proved up to `erase` (HRef.external forgotten, tag name emph = em): the exact statements are refuted by the F10 witnesses (ctor_flat_refuted, case_flat_refuted)',
-           'not proved, left to the correspondence run and the oracle: split, contains / startswith / endswith / isalpha, add_period, abbreviate, == (uniqueness of the normal form), int index / add_period / abbreviate / split inside ops_compose; immutability of operands is checked by the oracle only',
-           'index_out_of_range_raises_refuted: multipart texts do not raise IndexError outside the bounds (F23)']
+PARTIAL = ['not proved, left to the correspondence run and the oracle: that every constructed value is in the normal form assumed by flat_injective (checked by the oracle on every value), cut positions of split / string separators, add_period, abbreviate, isalpha, int index / add_period / abbreviate / split inside ops_compose; immutability of operands is checked by the oracle only',
+           'the _any theorems hold up to `erase`, which only reads the deprecated tag name emph as em (identity on every constructible text: erase_wf)',
+           'refuted statements kept as theorems: index_out_of_range_raises_refuted (F23), contains/startswith/endswith_flat_refuted (F17), split_no_empty_piece_refuted (F17s)']
